@@ -159,6 +159,9 @@ type chSpec struct {
 	IsSnap bool
 	Size   int  // wanted raw size in bytes, 0 = whatever it is
 	Approx bool // Size is a target (some exact sizes are unreachable: varint length prefixes)
+	// AclHead overrides the acl record the change cites ("" = the acl head). A change citing a record
+	// the receiver's acl does not contain is attached and then refused by the tree validator.
+	AclHead string
 }
 
 func (e *env) rootRaw(id string, size int) *treechangeproto.RawTreeChangeWithId {
@@ -182,10 +185,14 @@ func (e *env) rootRawSized(id string, size int, approx bool) *treechangeproto.Ra
 func (e *env) raw(c chSpec) *treechangeproto.RawTreeChangeWithId {
 	prev := append([]string(nil), c.Prev...)
 	sort.Strings(prev)
+	aclHead := e.aclHead
+	if c.AclHead != "" {
+		aclHead = c.AclHead
+	}
 	mk := func(pad int) []byte {
 		tc := &treechangeproto.TreeChange{
 			TreeHeadIds:    prev,
-			AclHeadId:      e.aclHead,
+			AclHeadId:      aclHead,
 			SnapshotBaseId: c.Snap,
 			IsSnapshot:     c.IsSnap,
 			DataType:       "verif",
@@ -243,6 +250,23 @@ type replica struct {
 	acl    list.AclList
 	sync   synctree.SyncTree // set for replicas built as real sync trees (C09 handler path)
 	client *fakeClient
+	reject *string // signed path: id the tree's content validator refuses ("" = none)
+}
+
+// unknownAclHead is cited by the corrupted copy of a change in a rejected delivery (chosen-id path)
+const unknownAclHead = "bafyreiverifunknownaclrecordxxxxxxxxxxxxxxxxxxxxxxxxxxxxxxxx"
+
+// mockBuild = chosen ids (non-verifying change builder) with the real tree validator.
+var mockBuild buildFunc = objecttree.BuildMigratableObjectTree
+
+// rejectingBuild = the signed tree whose content validator refuses the change *bad points to.
+func rejectingBuild(bad *string) buildFunc {
+	return objecttree.BuildObjectTreeWithContentValidator(func(ch *objecttree.Change, _ list.AclList) error {
+		if *bad != "" && ch.Id == *bad {
+			return fmt.Errorf("verif: change %s refused by the content validator", ch.Id)
+		}
+		return nil
+	})
 }
 
 // miniSpace is the part of a space storage PutSyncTree needs: head storage + tree storage creation.
